@@ -121,7 +121,11 @@ def run_jobs(jobs, base_seed=None):
     tasks = []
     for ji, job in enumerate(jobs):
         for sh in range(job.get("shards", 1)):
-            seed = job["seed"] * 1000003 + ji * 7919 + sh * 104729 + 1
+            if job.get("group"):
+                # same seeds for every job of the group (cross-configuration digests)
+                seed = job["seed"] * 1000003 + sh * 104729 + 1
+            else:
+                seed = job["seed"] * 1000003 + ji * 7919 + sh * 104729 + 1
             seed %= (1 << 53)
             tasks.append((job, sh, seed))
     # heavier jobs first
